@@ -8,6 +8,8 @@ stage 1  TLC checks spec/BodyFraming.tla (re-send state machine of HTTPConnectio
                          UnrewindableBodyError), FramingTable, RefusedOnlyWhenUnreplayable, DesignResends,
                          ManagerKeepsFirstPosition, PredictIsTheMachine, liveness Terminates
            D = {D3}      the code as recorded (on one-shot bodies, where the deviation's guard can fire): RulesHoldExceptKnown
+           D = {ShortReadIsEOF}  a variant TLC must refute (chunk_readable stops after a block shorter than the blocksize): it breaks
+                         PayloadEqualsBody exactly for streams that hand out short blocks while more data follows
            D = {ZeroPosTreatedAsUnset}  a variant TLC must refute (PoolManager tests the truth value of the recorded position):
                          it breaks BodyIdentical exactly for a seekable body at offset 0 after two manager-level redirects
          the action trail of every behaviour is read back (an action nobody takes is a vacuous model)
@@ -46,15 +48,22 @@ NEVER = {"ActRewindNoSeek"}                                  # must stay at zero
 INVARIANTS = ["TypeOK", "RulesHold", "RulesHoldExceptKnown", "FramingTable", "RefusedOnlyWhenUnreplayable", "DesignResends",
               "ManagerKeepsFirstPosition", "PredictIsTheMachine"]
 Z0 = "ZeroPosTreatedAsUnset"
+SR = "ShortReadIsEOF"
 RESEND = ["err", "errsend", "503", "307", "308", "303"]
-ALL_KINDS = ["none", "bytes", "str", "buffer", "file", "textfile", "notell", "badseek", "badtell", "list", "strlist", "gen"]
-TEXT_KINDS = {"str", "textfile", "strlist"}
-ONE_SHOT = {"notell", "gen"}
-HAS_TELL = {"file", "textfile", "badseek", "badtell"}
+ALL_KINDS = ["none", "bytes", "str", "buffer", "file", "textfile", "notell", "badseek", "badtell", "list", "strlist", "gen",
+             "shortfile", "shorttextfile", "shortpipe", "shorttextpipe"]
+TEXT_KINDS = {"str", "textfile", "strlist", "shorttextfile", "shorttextpipe"}
+ONE_SHOT = {"notell", "gen", "shortpipe", "shorttextpipe"}
+HAS_TELL = {"file", "textfile", "badseek", "badtell", "shortfile", "shorttextfile"}
+SHORT_READERS = {"shortfile", "shorttextfile", "shortpipe", "shorttextpipe"}
+SHORT_READ_REAL = 700        # bytes / characters per read of a short-reading stream when the real blocksize is used
 VARIANTS = {"none": ["None"], "bytes": ["bytes"], "str": ["str"], "buffer": ["bytearray", "memoryview", "array"],
             "file": ["BytesIO", "realfile"], "textfile": ["StringIO", "realtextfile"], "notell": ["readonly"],
             "badseek": ["badseek"], "badtell": ["badtell"], "list": ["list", "tuple"], "strlist": ["liststr"],
-            "gen": ["generator", "iter(list)"]}
+            "gen": ["generator", "iter(list)"],
+            # streams whose read(n) returns a non-empty block shorter than n while more data follows
+            "shortfile": ["shortseek", "shortseek-raw"], "shorttextfile": ["shortseektext", "shortseektextio"],
+            "shortpipe": ["shortpipe"], "shorttextpipe": ["shortpipetext"]}
 
 MC_CFG = """SPECIFICATION Spec
 CONSTANTS
@@ -67,6 +76,8 @@ CONSTANTS
   MCHistSizes = {hsizes}
   MCHistMethods = {hmethods}
   MCHist3Sizes = {h3sizes}
+  MCShortSizes = {ssizes}
+  MCShortTextMaxHist = {stexthist}
   MCBS = {bs}
   ShardK = {k}
   ShardS = {s}
@@ -106,6 +117,80 @@ class _ReadOnly:
 
     def read(self, n=-1):
         return self._b.read(n)
+
+
+class _ShortSeek:
+    """seekable stream (tell/seek work) whose read() hands out at most `k` units at a time; only an empty block means the end"""
+
+    def __init__(self, inner, k):
+        self._f, self._k = inner, k
+
+    def read(self, n=-1):
+        return self._f.read(self._k if n is None or n < 0 else min(n, self._k))
+
+    def tell(self):
+        return self._f.tell()
+
+    def seek(self, *a):
+        return self._f.seek(*a)
+
+
+class _ShortPipe:
+    """the same without tell / seek (a pipe)"""
+
+    def __init__(self, inner, k):
+        self._f, self._k = inner, k
+
+    def read(self, n=-1):
+        return self._f.read(self._k if n is None or n < 0 else min(n, self._k))
+
+
+class _ShortRaw(io.RawIOBase):
+    """io.RawIOBase flavour: read() is built on readinto(), which fills at most `k` bytes"""
+
+    def __init__(self, data, k):
+        super().__init__()
+        self._f, self._k = io.BytesIO(data), k
+
+    def readable(self):
+        return True
+
+    def seekable(self):
+        return True
+
+    def readinto(self, b):
+        d = self._f.read(min(len(b), self._k))
+        b[:len(d)] = d
+        return len(d)
+
+    def tell(self):
+        return self._f.tell()
+
+    def seek(self, *a):
+        return self._f.seek(*a)
+
+
+class _ShortTextIO(io.TextIOBase):
+    """io.TextIOBase flavour (body_to_chunks encodes its blocks itself)"""
+
+    def __init__(self, data, k):
+        super().__init__()
+        self._f, self._k = io.StringIO(data), k
+
+    def readable(self):
+        return True
+
+    def seekable(self):
+        return True
+
+    def read(self, n=-1):
+        return self._f.read(self._k if n is None or n < 0 else min(n, self._k))
+
+    def tell(self):
+        return self._f.tell()
+
+    def seek(self, *a):
+        return self._f.seek(*a)
 
 
 class _BadSeek(io.BytesIO):
@@ -186,6 +271,19 @@ def realise(sc, mode, variant, total, tmpdir):
     elif kind == "badtell":
         body = _BadTell(enc(whole))
         body.seek(cstart)
+    elif kind in SHORT_READERS:
+        k = (sc["bs"] - 1 if sc["bs"] > 1 else 1) if mode == "sym" else SHORT_READ_REAL      # = ShortRead(sc) of the spec
+        if variant == "shortseek-raw":
+            body = _ShortRaw(enc(whole), k)
+        elif variant == "shortseektextio":
+            body = _ShortTextIO(whole, k)
+        else:
+            inner = io.StringIO(whole) if textual else io.BytesIO(enc(whole))
+            body = (_ShortSeek if kind in HAS_TELL else _ShortPipe)(inner, k)
+        if kind in HAS_TELL:
+            body.seek(cstart)
+        else:
+            body._f.seek(cstart)
     else:
         d = pieces[start:]
         h = len(d) // 2
@@ -516,7 +614,7 @@ def plan_realisations(sc, idx, quick, rng):
     # bodies of realistic size around the real blocksize; multi-attempt histories only with a few sizes
     # (a read-only stream that broke in the middle of a write is left at a blocksize boundary, not at a unit boundary:
     #  what is left cannot be expressed in units, so that combination is judged on raw bytes only)
-    if kind != "none" and n > 0 and (not quick or idx % 4 == 0) and not (kind == "notell" and "errsend" in sc["hist"]):
+    if kind != "none" and n > 0 and (not quick or idx % 4 == 0) and not (kind in ONE_SHOT and kind != "gen" and "errsend" in sc["hist"]):
         sizes = [1, REAL_BS - 1, REAL_BS, REAL_BS + 1, 3 * REAL_BS + 5]
         pick = sizes if (not quick and len(sc["hist"]) == 1) else [sizes[(idx // 4 + rng.randrange(5)) % 5]]
         for tot in pick:
@@ -535,14 +633,14 @@ def _hists(quick):
 
 def _params(quick):
     if quick:
-        return dict(kinds=ALL_KINDS, sizes=[0, 1, 4], methods=[1, 2, 3], hsizes=[0, 4], hmethods=[2], h3sizes=[4], bs=3)
+        return dict(kinds=ALL_KINDS, sizes=[0, 1, 4], methods=[1, 2, 3], hsizes=[0, 4], hmethods=[2], h3sizes=[4], ssizes=[4], stexthist=1, bs=3)
     return dict(kinds=ALL_KINDS, sizes=[0, 1, 2, 3, 4, 8], methods=[1, 2, 3, 4, 5, 6, 7, 8], hsizes=[0, 1, 4],
-                hmethods=[1, 2, 3, 4, 5, 6, 7, 8], h3sizes=[0, 1, 4], bs=3)
+                hmethods=[1, 2, 3, 4, 5, 6, 7, 8], h3sizes=[0, 1, 4], ssizes=[1, 2, 3, 4, 8], stexthist=3, bs=3)
 
 
 def _cfg(p, defects, checks, k=1, s=0, emit=False):
     return MC_CFG.format(defects="{" + ", ".join(tla_set(d) for d in defects) + "}", kinds=tla_set(p["kinds"]), sizes=tla_set(p["sizes"]), hsizes=tla_set(p["hsizes"]),
-                         methods=tla_set(p["methods"]), hmethods=tla_set(p["hmethods"]), h3sizes=tla_set(p["h3sizes"]), bs=p["bs"],
+                         methods=tla_set(p["methods"]), hmethods=tla_set(p["hmethods"]), h3sizes=tla_set(p["h3sizes"]), ssizes=tla_set(p["ssizes"]), stexthist=p["stexthist"], bs=p["bs"],
                          k=k, s=s, emit="TRUE" if emit else "FALSE", checks=checks)
 
 
@@ -565,8 +663,8 @@ def run(rep):
     # ---- stage 1 + 2: ONE exhaustive run explores the design (D = {}), the code as recorded (D = {D3}, on one-shot bodies, where
     # the deviation's guard can fire) and the variant that must be refuted (D = {ZeroPosTreatedAsUnset}, on seekable bodies behind a
     # PoolManager) side by side, checks every invariant in every state and prints every terminal state
-    r1, emitted = _model_run(("MC_BodyFraming", _cfg(p, [[], ["D3"], [Z0]], checks, emit=True), envdoc, False))
-    label = f"MC_BodyFraming D in {{{{}}, {{D3}}, {{{Z0}}}}} {p} histories={len(hists)} invariants={INVARIANTS}+Terminates"
+    r1, emitted = _model_run(("MC_BodyFraming", _cfg(p, [[], ["D3"], [Z0], [SR]], checks, emit=True), envdoc, False))
+    label = f"MC_BodyFraming D in {{{{}}, {{D3}}, {{{Z0}}}, {{{SR}}}}} {p} histories={len(hists)} invariants={INVARIANTS}+Terminates"
     rep.states += r1["distinct"]
     rep.transitions += r1["generated"]
     rep.stage1.append({"run": label, "distinct_states": r1["distinct"], "states_generated": r1["generated"], "depth": r1["depth"],
@@ -590,20 +688,23 @@ def run(rep):
     design = {k: v for (dv, k), v in emitted.items() if dv == "design"}
     code = {k: v for (dv, k), v in emitted.items() if dv == "D3"}
     zero = {k: v for (dv, k), v in emitted.items() if dv == Z0}
-    if not design or not set(code) <= set(design) or not set(zero) <= set(design) or len(design) + len(code) + len(zero) != len(emitted):
-        raise tlc.MachineryError(f"emission mismatch: {len(design)} design / {len(code)} D3 / {len(zero)} {Z0} terminal states")
+    short = {k: v for (dv, k), v in emitted.items() if dv == SR}
+    if (not design or not set(code) <= set(design) or not set(zero) <= set(design) or not set(short) <= set(design)
+            or len(design) + len(code) + len(zero) + len(short) != len(emitted)):
+        raise tlc.MachineryError(f"emission mismatch: {len(design)} design / {len(code)} D3 / {len(zero)} {Z0} / {len(short)} {SR} terminal states")
     if {k for k, v in design.items() if v[0]["kind"] in ONE_SHOT} != set(code):
         raise tlc.MachineryError("the run with the recorded deviation D3 did not cover exactly the one-shot scenarios")
     bad_design = [k for k, v in design.items() if v[2] != "ok"]
     if bad_design:
         raise tlc.MachineryError("emission shows a Rules failure in the design model: " + bad_design[0])
     # TLC must exhibit the recorded deviation and refute the zero-position variant (its own Verdict on its own model run)
-    shown = {"D3": sum(1 for v in code.values() if v[2] == "BodyIdentical"), Z0: sum(1 for v in zero.values() if v[2] == "BodyIdentical")}
+    shown = {"D3": sum(1 for v in code.values() if v[2] == "BodyIdentical"), Z0: sum(1 for v in zero.values() if v[2] == "BodyIdentical"),
+             SR: sum(1 for v in short.values() if v[2] == "PayloadEqualsBody")}
     rep.extra["deviations_exhibited_by_tlc"] = shown
-    rep.extra["emitted_scenarios"] = {"design": len(design), "D3": len(code), Z0: len(zero)}
+    rep.extra["emitted_scenarios"] = {"design": len(design), "D3": len(code), Z0: len(zero), SR: len(short)}
     for d, n in shown.items():
         if not n:
-            raise tlc.MachineryError(f"the deviation {d} is not reachable in the model: no terminal state violates BodyIdentical with D = {{{d}}}")
+            raise tlc.MachineryError(f"the deviation {d} is not reachable in the model: no terminal state violates the expected clause with D = {{{d}}}")
     one_hop = [k for k, v in zero.items() if v[2] != "ok" and sum(o in ("307", "308") for o in v[0]["hist"]) < 2]
     if one_hop:
         raise tlc.MachineryError(f"{Z0} breaks a history with fewer than two redirects in the model: {one_hop[0]}")
